@@ -145,7 +145,9 @@ def execute(prop, tape, env):
     except Exception:
         h.update(repr(sorted(ctx.decoded)).encode())
     h.update(repr((kind, cls, site, detail if kind != "harness_error" else "")).encode())
-    h.update(repr(sorted(ctx.counters.items())).encode())
+    # (counters named nondet:* report things the simulator does not own, e.g. whether the allocator reused an
+    # address; they are reported in the evidence but are no part of the run's identity)
+    h.update(repr(sorted((k, v) for k, v in ctx.counters.items() if not k.startswith("nondet:"))).encode())
     h.update(repr(tape.values).encode())
     h.update(dk.encode())
     return Outcome(kind=kind, cls=cls, detail=detail, site=site,
